@@ -22,8 +22,13 @@ BackoffAfter(o, k, p) ==      \* value of `backoff` before the k-th run ended
   IF k = 1 THEN MinBackoff ELSE IF o[k - 1] THEN MinBackoff ELSE NextBackoff(p, BackoffAfter(o, k - 1, p), TRUE)
 WaitAfter(o, k, p) == IF o[k] THEN p ELSE BackoffAfter(o, k, p)
 TickPlaces(o, p) == {[after |-> k, delay |-> WaitAfter(o, k, p), sig |-> s, same_poll |-> TRUE] : k \in 1..Depth, s \in {"int", "term", "hup"}}
+(* a signal that arrives while a run is in progress: every job lasts 5 s, the signal comes 1 s or 4 s after the   *)
+(* start of job k ("after" = k - 1 finished jobs)                                                                  *)
+MidJobs(o) == [k \in 1..Len(o) |-> [ok |-> o[k], dur |-> 5]]
+DuringPlaces == {[after |-> k - 1, delay |-> d, sig |-> s, during |-> TRUE] : k \in 1..Depth, d \in {1, 4}, s \in {"hup", "int", "term"}}
 Cases ==
   {[period |-> p, jobs |-> Jobs(o, 1, p, sl), signals |-> <<>>] : p \in Periods, o \in Outcomes, sl \in BOOLEAN}
+  \cup {[period |-> p, jobs |-> MidJobs(o), signals |-> <<s>>] : p \in Periods, o \in Outcomes, s \in DuringPlaces}
   \cup UNION {UNION {{[period |-> p, jobs |-> Jobs(o, 1, p, FALSE), signals |-> <<s>>] : s \in TickPlaces(o, p)} : o \in Outcomes} : p \in Periods}
   \cup UNION {{[period |-> p, jobs |-> Jobs(o, 1, p, FALSE), signals |-> <<s>>] : o \in Outcomes, s \in SigPlaces(p)} : p \in Periods}
 (* a long run of consecutive failures (far beyond the point where the delay stops growing), a recovery, *)
